@@ -330,5 +330,6 @@ EXPLANATION = (
     "with the matching builders whose set_defaults(func=...) name the matching run functions; primitives are shutil.copy2, "
     "os.link/os.symlink, shutil.move; ls lists through ilsdrf/lsdrf. R4: the channel list is only split on commas and mapped, unfiltered, "
     "to (source, destination) pairs. Does NOT decide byte identity (library code).")
+TECHNIQUE = ('Python ast; alpha-equivalence of sibling commands; option-table vs signature agreement; registry/table checks')
 ASSUMPTIONS = ["argparse derives dest from the first long option string", "shutil/os primitives behave as documented"]
 FILES = [LD, "python/digital_rf/drf_command.py"]
